@@ -339,7 +339,7 @@ theorem feed_writeAll (role : Role) (accept : Bytes) (msgs : List (Bytes × Byte
     (hc : chunks.flatten = writeAll role msgs) :
     wsObs (Coap.M.Ws.feed (readerMode role) accept { up := true } chunks) = (delivered msgs, .open true) := by
   have hinv : WsInv (readerMode role) { up := true } (.fr []) := Or.inl ⟨⟨rfl, rfl, rfl, rfl⟩, trivial⟩
-  have := wsObs_of_post (readerMode role) _ _ (feed_spec (readerMode role) accept chunks { up := true } (.fr []) hinv trivial)
+  have := wsObs_of_post (readerMode role) _ _ (feed_spec (readerMode role) accept chunks { up := true } (.fr []) hinv)
   rw [this]
   have hf := frOf_writeAll role [] msgs hk hn
   rw [List.append_nil] at hf
